@@ -12,6 +12,7 @@ import (
 	"fmt"
 	"go/types"
 	"net/url"
+	"reflect"
 	"regexp"
 )
 
@@ -225,11 +226,31 @@ func init() {
 		},
 		"encoding/json.Marshal": func(i *interpreter, fr *frame, a []value) (value, bool) {
 			mustConcrete("json.Marshal", a[0])
-			b, err := json.Marshal(toGo(a[0]))
+			var b []byte
+			var err error
+			if x, ok := a[0].(iface); ok && needsTypedJSON(x.t, 0) {
+				b, err = json.Marshal(typedJSONValue(x))
+			} else {
+				b, err = json.Marshal(toGo(a[0]))
+			}
 			return tuple{bytesToValues(b), i.mkError(fr, err)}, true
 		},
 		"encoding/json.Unmarshal": func(i *interpreter, fr *frame, a []value) (value, bool) {
 			mustConcrete("json.Unmarshal", a[0])
+			if dst, ok := a[1].(iface); ok && dst.t != nil {
+				if pt, ok := dst.t.Underlying().(*types.Pointer); ok && needsTypedJSON(pt.Elem(), 0) {
+					p, _ := dst.v.(*value)
+					if p == nil {
+						return i.mkError(fr, json.Unmarshal(valuesToBytes(a[0]), (*int)(nil))), true
+					}
+					mustConcrete("json.Unmarshal", *p)
+					rv := reflect.New(goTypeOf(pt.Elem(), 0))
+					toGoTyped(*p, pt.Elem(), rv.Elem())
+					err := json.Unmarshal(valuesToBytes(a[0]), rv.Interface())
+					*p = fromGoTyped(rv.Elem(), pt.Elem(), *p)
+					return i.mkError(fr, err), true
+				}
+			}
 			var out any
 			err := json.Unmarshal(valuesToBytes(a[0]), &out)
 			if err == nil {
